@@ -315,6 +315,70 @@ def SrkTable.computedLength (rs : List SrkRecord) : Nat :=
 /-- `SRKTable.compute_srk_hash()` = SHA-256 of the exported table -/
 def srkTableHash (c : CryptoOps) (tableBytes : Bytes) : Bytes := c.hash .sha256 tableBytes
 
+/-! ## SRK table array (container version 2): SRK data, version-2 records (hash of the SRK data), table, array -/
+
+/-- a version-2 SRK: the record fields and the key data (modulus ‖ exponent or X ‖ Y) that goes into its SRK data block -/
+structure SrkV2 where
+  signAlg : Nat
+  hashAlg : Nat
+  keySize : Nat
+  srkFlags : Nat
+  keyData : Bytes
+  deriving Repr, DecidableEq
+
+/-- `SRKData.export()` -/
+def encodeSrkData (srkId : Nat) (data : Bytes) : PyRes Bytes :=
+  match packChecked AhabConsts.srkDataLayout.intWidths
+      [AhabConsts.srkDataVersion, AhabConsts.srkDataLayout.size + data.length, AhabConsts.srkDataTag, srkId, AhabConsts.reserved, AhabConsts.reserved] with
+  | .ok h => .ok (h ++ data)
+  | .error e => .error e
+
+/-- `SRKRecordV2` as `update_fields` leaves it: crypto parameters = hash of the exported SRK data, zero-extended to 64 bytes -/
+def srkRecordOfV2 (c : CryptoOps) (ix : Nat) (r : SrkV2) : PyRes SrkRecord :=
+  match encodeSrkData ix r.keyData, hashAlgOfTag r.hashAlg with
+  | .ok d, some a =>
+    .ok ⟨r.signAlg, r.hashAlg, r.keySize, r.srkFlags, AhabConsts.srkRecordLayout.size + AhabConsts.srkRecordV2ParamsLen,
+         extendTo AhabConsts.srkRecordV2ParamsLen (c.hash a d)⟩
+  | .error e, _ => .error e
+  | _, none => .error .spsdk
+
+def srkRecordsOfV2 (c : CryptoOps) : Nat → List SrkV2 → PyRes (List SrkRecord)
+  | _, [] => .ok []
+  | ix, r :: rs =>
+    match srkRecordOfV2 c ix r, srkRecordsOfV2 c (ix + 1) rs with
+    | .ok a, .ok b => .ok (a :: b)
+    | .error e, _ => .error e
+    | _, .error e => .error e
+
+/-- `SRKTableV2.export()` (header version 0x43, records of fixed length) -/
+def encodeSrkTableV2 (recs : List SrkRecord) : PyRes Bytes :=
+  match packChecked AhabConsts.srkTableLayout.intWidths
+      [AhabConsts.srkTableTag, SrkTable.computedLength recs, AhabConsts.srkTableV2Version], encodeRecords recs with
+  | .ok h, .ok b => .ok (h ++ b)
+  | .error e, _ => .error e
+  | _, .error e => .error e
+
+/-- SRK data block of the record `chip_config.used_srk_id` selects (IndexError when there is no such record) -/
+def usedSrkData (used : Nat) (srks : List SrkV2) : PyRes Bytes :=
+  match srks[used]? with
+  | some r => encodeSrkData used r.keyData
+  | none => .error .other
+
+/-- `SRKTableArray.export()` with one table: header ‖ table ‖ SRK data of the used record -/
+def encodeSrkArray (c : CryptoOps) (used : Nat) (srks : List SrkV2) : PyRes Bytes :=
+  match srkRecordsOfV2 c 0 srks with
+  | .error e => .error e
+  | .ok recs =>
+    match encodeSrkTableV2 recs, usedSrkData used srks with
+    | .ok t, .ok d =>
+      (match packChecked AhabConsts.srkTableArrayLayout.intWidths
+          [AhabConsts.srkTableArrayVersion, AhabConsts.srkTableArrayLayout.size + t.length + d.length, AhabConsts.srkTableArrayTag, 1,
+           AhabConsts.reserved, AhabConsts.reserved] with
+       | .ok h => .ok (h ++ t ++ d)
+       | .error e => .error e)
+    | .error e, _ => .error e
+    | _, .error e => .error e
+
 /-! ## signature container, blob -/
 
 /-- `ContainerSignature.export()` for signature data `s` (`len(self) = 8 + len(s)`; empty data = no container) -/
@@ -456,6 +520,12 @@ def Container.revokeMask (c : Container) : Nat := getF c.flags AhabConsts.cFlags
 def containerFlags (srkSet usedSrkId revokeMask gdet : Nat) : Nat :=
   srkSet ||| (usedSrkId <<< AhabConsts.cFlagsUsedSrkIdOffset) ||| (revokeMask <<< AhabConsts.cFlagsSrkRevokeMaskOffset)
     ||| (gdet <<< AhabConsts.cFlagsGdetEnableOffset)
+
+/-- the flag word of a version-2 container: `AHABContainerV2._load_from_config_flags` additionally ORs the
+    `check_all_signatures` option in at `FLAGS_CHECK_ALL_SIGNATURES_OFFSET` (bit 15; where `flag_check_all_signatures` reads it) -/
+def containerFlagsV2 (srkSet usedSrkId revokeMask gdet checkAll : Nat) : Nat :=
+  srkSet ||| (usedSrkId <<< AhabConsts.cFlagsUsedSrkIdOffset) ||| (revokeMask <<< AhabConsts.cFlagsSrkRevokeMaskOffset)
+    ||| (checkAll <<< AhabConsts.cFlagsCheckAllSignaturesOffset) ||| (gdet <<< AhabConsts.cFlagsGdetEnableOffset)
 
 /-- `_signature_block_offset` for `n` images -/
 def sigBlockOffset (v : Ver) (n : Nat) : Nat := al8 ((v.hdrLayout).size + n * (v.iaeLayout).size)
